@@ -74,7 +74,8 @@ PROPS["C08"] = _e1({
 })
 
 PROPS["C10"] = _e1({
-    "rule": "all types without reference unit (Temperature, SynNoRef; single-unit SynSingle) x all ordered unit pairs x "
+    "profiles": ["dev", "rel"],
+    "rule": "[each back-end in two builds: dev profile, and the same without debug assertions / overflow checks] " "all types without reference unit (Temperature, SynNoRef; single-unit SynSingle) x all ordered unit pairs x "
             "(a, b) in (V u S)^2 including a = b: ==, !=, partial_cmp, <, +, -, /; equality iff same unit and equal "
             "amounts, unordered iff units differ, + - / panic iff units differ and are otherwise bit-identical to the "
             "amount operation. " + V_DESC,
@@ -184,7 +185,7 @@ PROPS["C16"] = _e1({
                       "over the abbreviation alphabet (every character of every abbreviation, its case-swapped forms, "
                       "blank, 'u', 'x', '0', GREEK MU U+03BC and MICRO SIGN U+00B5) through from_abbr",
              "thorough": "as quick plus all strings of length 3 over the same alphabet"},
-    "floors": {"quick": {"states": 1800, "sensitive": 75, "alphabet_chars": 35}},
+    "floors": {"quick": {"states": 10000, "sensitive": 75, "alphabet_chars": 100}},
     "assumptions": ["SIPrefix does not depend on the amount back-end (one build suffices)"],
 })
 
@@ -200,7 +201,8 @@ PROPS["C17"] = _e1({
 })
 
 PROPS["C18"] = _e1({
-    "rule": "the operation menus of C01-C05, C08, C13-C15 re-run under catch_unwind over the totality alphabets: f64: "
+    "profiles": ["dev", "rel"],
+    "rule": "[each back-end in two builds: dev profile, and the same without debug assertions / overflow checks] " "the operation menus of C01-C05, C08, C13-C15 re-run under catch_unwind over the totality alphabets: f64: "
             "V u S (zero, negative zero, subnormals, MIN_POSITIVE, MAX, +-inf, NaN with two payloads) for EVERY operand; "
             "Decimal: V u R (range edges +-1e-15, +-1e17, +-(1e17-1), +-1.5e-15), admitted iff the magnitude precondition "
             "of the statement holds, evaluated exactly (operands, reference-unit magnitudes, smallest-unit expression, "
@@ -245,6 +247,7 @@ def setup():
     t0 = time.time()
     catalogue.generate(BUILD)
     common.build_drives(["f64", "dec"])
+    common.build_drives(["f64-rel", "dec-rel"])
     run_selftest()
     # warm the E2 / E3 builds so that the first quick checks are fast
     for b in ("f64", "dec"):
